@@ -1088,7 +1088,7 @@ pub mod core_m {
 //@rule X9.debug-assert * s#debug_assert!\(([^;]*)\);#assert(\1); // [C02/resolve/debug-assertion-cannot-fire]#
 //@end
 
-//@extract id=Core::process file=crux_core/src/core/mod.rs within="impl<A> Core<A>" item="fn process" props=C01+C03
+//@extract id=Core::process file=crux_core/src/core/mod.rs within="impl<A> Core<A>" item="fn process" props=C01+C03+C05
 //@expect pub(crate) fn process(&self) -> Vec<A::Effect>
 //@sig pub fn process(&mut self, Tracked(w): Tracked<&mut World>) -> (r: Vec<A::Effect>)
 //@attr #[verifier::exec_allows_no_decreases_clause]
@@ -1097,8 +1097,8 @@ pub mod core_m {
                 old(self).wf(), old(self).idle(),
                 !old(w).model_locked,
             ensures
-                final(w).spawn == 0 && final(w).ready == 0, // [C01/process/no-runnable-work-left-behind]
-                final(w).events.len() == 0, // [C01+C03/process/every-internally-emitted-event-has-been-applied]
+                final(w).spawn == 0 && final(w).ready == 0, // [C01+C05/process/no-runnable-work-left-behind]
+                final(w).events.len() == 0, // [C01+C03+C05/process/every-internally-emitted-event-has-been-applied]
                 final(w).effects.len() == 0, // [C01/process/no-effect-deferred-to-a-later-call]
                 old(w).effects.is_prefix_of(channel::ids(r@)), // [C01/process/effects-handed-over-exactly-once-in-order]
                 event_log(*old(w)).is_prefix_of(final(w).applied), // [C03/process/queued-events-applied-exactly-once-in-FIFO-order]
@@ -1725,7 +1725,7 @@ pub mod command_m {
                     w.c_spawn == 0,
 //@end
 
-//@extract id=Command::run_until_settled file=crux_core/src/command/executor.rs within="impl<Effect, Event> Command<Effect, Event>" item="fn run_until_settled" props=C01+C06+C07+C13
+//@extract id=Command::run_until_settled file=crux_core/src/command/executor.rs within="impl<Effect, Event> Command<Effect, Event>" item="fn run_until_settled" props=C01+C05+C06+C07+C13
 //@expect pub(crate) fn run_until_settled(&mut self)
 //@sig pub fn run_until_settled(&mut self, Tracked(w): Tracked<&mut World>)
 //@attr #[verifier::exec_allows_no_decreases_clause]
@@ -1740,7 +1740,7 @@ pub mod command_m {
                 joiners_notified(*final(w)), // [C01+C06+C07+C13/run_until_settled/whoever-awaits-a-finished-or-cancelled-task-has-been-woken]
                 old(w).c_aborted ==> final(self).tasks@ == Map::<usize, Task>::empty() && *final(w) == *old(w), // [C06+C13/run_until_settled/an-aborted-command-drops-all-its-tasks-polls-none-and-emits-nothing-more]
                 !old(w).c_aborted ==> discarded_only_finished(old(self).tasks@, final(self).tasks@, *final(w)), // [C07/run_until_settled/only-finished-or-cancelled-tasks-are-discarded]
-                !old(w).c_aborted ==> final(w).c_spawn == 0 && final(w).c_ready == 0, // [C01/run_until_settled/no-runnable-work-left-behind]
+                !old(w).c_aborted ==> final(w).c_spawn == 0 && final(w).c_ready == 0, // [C01+C05/run_until_settled/no-runnable-work-left-behind]
                 cmd_outputs_appended(*old(w), *final(w)), // [C01/run_until_settled/outputs-only-appended]
                 old(w).c_aborted ==> final(w).c_aborted,
                 !old(w).c_aborted && old(w).c_spawn == 0 && old(w).c_ready == 0 ==> *final(w) == *old(w) && final(self).tasks@ == old(self).tasks@, // [C01/run_until_settled/idempotent-once-settled]
